@@ -22,15 +22,16 @@ Print Assumptions schema_matches_validation_partial.
 Theorem schema_iff_server_accepts_partial :
   forall (fmt_ok pat_ok : nat -> str -> bool) E fc,
     wf_env E = true -> env_schema_faithful E = true -> env_excl_ok E = true -> env_pm_ok E = true -> c_ignreq fc = false ->
-    (forall c id n x, has_validations E c id = false -> spec_user fmt_ok pat_ok E n id x = []) ->
+    c_ptr fc = true ->
   forall n c req a v,
     wf_att E a = true -> schema_faithful E a = true -> excl_ok E a = true -> pm_ok true a = true -> c_ignreq c = false ->
+    (no_user a = true \/ c_ptr c = true) ->
     wt E fc c req a v -> root_ok a v -> v <> VNull -> dense v = true ->
     (schema_accepts fmt_ok pat_ok E n a v = true <-> validate fmt_ok pat_ok E fc n c req a v = Some []).
 Proof.
-  intros fmt_ok pat_ok E fc HE Hsf Hex Hpm Hfc Hel n c req a v Hwf Hsfa Hexa Hpma Hc Hwt Hr Hv Hd.
+  intros fmt_ok pat_ok E fc HE Hsf Hex Hpm Hfc Hfcp n c req a v Hwf Hsfa Hexa Hpma Hc HP Hwt Hr Hv Hd.
   rewrite (schema_matches fmt_ok pat_ok E fc HE Hsf n c req a v Hwf Hsfa Hwt Hv Hd).
-  rewrite <- (goa_iff_spec fmt_ok pat_ok E fc HE Hex Hpm Hfc Hel n c true a v Hc Hwf Hexa Hpma (fun _ => Hv)).
+  rewrite <- (goa_iff_spec fmt_ok pat_ok E fc HE Hex Hpm Hfc eq_refl Hfcp n c true a v Hc HP Hwf Hexa Hpma (fun _ => Hv)).
   rewrite (validate_ok fmt_ok pat_ok E fc HE n c req a v Hwf Hwt Hr).
   split; intro H; [now rewrite H|now injection H].
 Qed.
